@@ -8,6 +8,7 @@ shows the model is symmetric on an explicit syntactic fragment, and its sessions
 """
 from .. import ast as A, gen, values as V, campaign, tlc, speccode
 from . import common
+from .. import universes as U
 
 LEVEL = "model_checking"
 CLAUSE = "C01.sym"
@@ -39,6 +40,11 @@ def run(ctx):
             camp.sh.maybe_flush()
             if i < 3:
                 ctx.sample({"program": prog})
+        for prog, kw, vals in U.fixed_programs():
+            con = campaign.realizable(prog)
+            for v in vals:
+                camp.roundtrip_from_value(prog, con, v, kw, clauses=(CLAUSE,))
+        camp.sh.maybe_flush()
         # spec -> code: sessions TLC explores on the model's universe; the value built is the one the specification parsed
         uprogs, ukw, sessions, _ = speccode.explore(ctx, focus="all", part=speccode.part_of(ctx, 16 if quick else 16))
         def on(camp, prog, con, s, idx):
